@@ -63,6 +63,7 @@ type Contract struct {
 	Inherit    string // explicit contract: clauses of this schema are prepended
 	FParams    map[string]string // function-typed parameter -> schema its argument must satisfy
 	Weak       bool              // strong(self) is false for this function
+	SchemaOnly bool              // instantiated from a schema by its name only (no explicit contract block)
 	Replay     *Expr // string-valued expression (pre-state): the input buffer for counterexample replay
 	Ghosts     []string
 	BuildsNodes bool
@@ -530,6 +531,7 @@ func (cs *ContractSet) forFunc(name string) *Contract {
 		if sc.Pattern.MatchString(name) && (sc.Exclude == nil || !sc.Exclude.MatchString(name)) {
 			c := *sc.C
 			c.Func = name
+			c.SchemaOnly = true
 			c.Loops = map[int]*LoopContract{}
 			for k, v := range sc.C.Loops {
 				c.Loops[k] = v
